@@ -18,6 +18,7 @@ from __future__ import annotations
 import inspect
 import random
 import sys
+import os
 import time
 import traceback
 from dataclasses import dataclass, field
@@ -292,6 +293,8 @@ def explore(
                 except UnexploredPath as e:
                     res.unknown += 1
                     key = type(e).__name__
+                    if os.environ.get("VERIF_DEBUG_UNKNOWN") and res.unknown_reasons.get(key, 0) < 2:
+                        traceback.print_exc()
                     res.unknown_reasons[key] = res.unknown_reasons.get(key, 0) + 1
                     status = VerificationStatus.UNKNOWN
                 _analysis, exhausted = space.bubble_status(CallAnalysis(status))
